@@ -826,6 +826,8 @@ def for_loop_parts(e):
             p = arm['pat']
             if p.get('k') == 'tuplestruct' or (p.get('k') == 'struct'):
                 pats = p.get('pats') or [f['pat'] for f in p.get('fields', [])]
+                if not pats:
+                    continue
                 return (pats[0], it, arm['body'])
     except (KeyError, IndexError, TypeError):
         return None
